@@ -958,6 +958,12 @@ func (e *Explorer) explore(prefix []int, used int, body func(), check func(x *Ex
 		e.Capped = true
 		return
 	}
+	// the state cache is the only structure that grows with the search: cap it (about 0.5 GB per explorer,
+	// several explorers run in parallel) and report the cap like any other
+	if len(e.seen) > 6_000_000 {
+		e.Capped = true
+		return
+	}
 	e.curCost = used
 	x := Run(e, prefix, body, e.Opts)
 	x.Fresh = e.Bound <= 0 || used == e.Bound
